@@ -436,6 +436,66 @@ def run(prog, chk):
     uses_find = [n for n in SX.walk(checksum.body) if n['k'] == 'mcall' and SX.short(n['callee']) == 'find' and any(
         SX.is_node(a) and a.get('id') == asset['id'] for a in n['args'])]
     chk.ob('R20.4', checksum, checksum.ln, not uses_find, 'asset name must not be matched by substring search', key='no-substring', nontrivial=False)
+    # the name that is compared is the name listed in the file: the only edits between reading it and the comparison are the two
+    # documented spellings sha256sum produces for the same file — a leading binary-mode '*' and a leading "./" — each removed by a
+    # fixed-length erase under an exact test of that prefix.  Anything broader (cutting at the last '/', trimming by search) makes
+    # the entry of another file — `legacy/<asset>` — count as the asset's own
+    other = set()
+    helpers = []
+    for rn in gc.nodes:
+        if rn.kind != 'return':
+            continue
+        for ce, pol, _ in gc.guards(rn):
+            cp = SX.cmp_parts(ce)
+            if cp and cp[0] in ('==', '!='):
+                for x, y in ((SX.strip(cp[1]), SX.strip(cp[2])), (SX.strip(cp[2]), SX.strip(cp[1]))):
+                    if SX.is_node(x) and x.get('id') == asset['id'] and SX.is_node(y) and y.get('k') == 'ref':
+                        other.add(y['id'])
+                    if SX.is_node(x) and x.get('id') == asset['id'] and SX.is_node(y) and y.get('k') == 'call' and prog.by_name.get(y.get('callee')):
+                        h_ = prog.by_name[y['callee']][0]
+                        if h_.body and h_.params and h_.params[0].get('id'):
+                            helpers.append((h_, {h_.params[0]['id']}))
+    nedit = 0
+    for fn_, g_, ids_ in [(checksum, gc, other)] + [(h_, prog.cfg(h_), i_) for h_, i_ in helpers]:
+      for cn in g_.nodes:
+          if cn.kind not in ('call', 'assign') or not SX.is_node(cn.e):
+              continue
+          e = cn.e
+          tgt = None
+          if e.get('k') == 'mcall' and not e.get('constm', True) and SX.is_node(SX.strip(e.get('obj'))) and SX.strip(e['obj']).get('id') in ids_ and \
+                  SX.short(e.get('callee', '')) in ('erase', 'assign', 'append', 'insert', 'replace', 'resize', 'clear', 'pop_back', 'push_back', 'swap', 'operator=', 'operator+='):
+              tgt = SX.strip(e['obj'])
+          w = SX.write_target(e)
+          if w and SX.is_node(SX.strip(w[0])) and SX.strip(w[0]).get('id') in ids_:
+              tgt = SX.strip(w[0])
+          if tgt is None:
+              continue
+          nedit += 1
+          ok_edit = False
+          why = SX.show(e)[:60]
+          if e.get('k') == 'mcall' and SX.short(e.get('callee', '')) == 'erase':
+              a = SX.real_args(e)
+              vals = [SX.strip(x).get('v') if SX.is_node(SX.strip(x)) and SX.strip(x).get('k') == 'int' else None for x in a]
+              if len(a) == 2 and vals[0] == 0 and vals[1] in (1, 2):
+                  for ce, pol, _ in g_.guards(cn):
+                      if not pol:
+                          continue
+                      cp = SX.cmp_parts(ce)
+                      if not cp or cp[0] != '==':
+                          continue
+                      l, r = SX.strip(cp[1]), SX.strip(cp[2])
+                      txt = SX.show(ce)
+                      if vals[1] == 1 and SX.is_node(l) and l.get('k') == 'mcall' and SX.short(l.get('callee', '')) == 'front' and SX.strip(l.get('obj')).get('id') == tgt['id'] \
+                              and SX.is_node(r) and r.get('k') in ('char', 'int') and r.get('v') in ('*', 42):
+                          ok_edit = True
+                      if vals[1] == 2 and SX.is_node(l) and l.get('k') == 'mcall' and SX.short(l.get('callee', '')) in ('rfind', 'compare') and SX.strip(l.get('obj')).get('id') == tgt['id'] \
+                              and any(SX.is_node(SX.strip(x)) and SX.strip(x).get('k') == 'str' and SX.strip(x).get('v') == './' for x in SX.real_args(l)) \
+                              and SX.is_node(r) and r.get('v') == 0:
+                          ok_edit = True
+          chk.ob('R20.4', fn_, cn.ln or fn_.ln, ok_edit,
+                 'the listed file name is edited before it is compared with the asset name (%s): only a leading \'*\' and a leading "./" may be removed, each by a fixed-length erase under an '
+                 'exact test of that prefix — anything broader lets the entry of another file stand in for the asset\'s' % why, key='name-edit:' + why[:30])
+    chk.count('edits of the listed name before the comparison', nedit, 1)
     # mismatch aborts before extraction
     mism = []
     for n in g.nodes:
